@@ -135,6 +135,17 @@ class Spec(core.PropSpec):
             g = round(ro.uniform(0.05, 1.0), 3)
             return dict(cls="factors", spec=spec, ops=ops, seed=ro.randint(0, 2 ** 31 - 1), ambA=rw.getrandbits(30), ambB=rw.getrandbits(30),
                         ks=[ro.randint(0, 9) for _ in range(3)], mono=[round(g * ro.random(), 3), g])
+        if rw.random() < 0.2:
+            # one transform object shared by two pipelines (e.g. two view pipelines); factors reach it through either
+            cand = [n for n in names if L[n]["keep"] and not L[n]["pipeline"]]
+            leaf = rw.choice(cand)
+            dom = L[leaf]["dom"]
+            other = rw.choice([n for n in cand if L[n]["dom"] == dom])
+            hist = [[ro.choice(["A", "B"]), ro.choice([0.0, 1.0, 0.5, round(ro.random(), 3)])] for _ in range(ro.randint(2, 5))]
+            if ro.random() < 0.6:
+                hist.append(list(ro.choice(hist[:-1])))  # the same pipeline gets the same factor again after the other one intervened
+            return dict(cls="shared", leaf=leaf, other=other, hist=hist, seed=ro.randint(0, 2 ** 31 - 1), ks=[ro.randint(0, 9) for _ in range(3)],
+                        ambA=rw.getrandbits(30), ambB=rw.getrandbits(30))
         inner = rw.choice([n for n in names if L[n]["dom"] == "T" and L[n]["keep"] and not L[n]["pipeline"]])
         B = rw.randint(1, 4)
         n_batches = rw.randint(1, 10)
@@ -148,6 +159,9 @@ class Spec(core.PropSpec):
                     sched_seed=ro.getrandbits(32), perm_seed=ro.getrandbits(16))
 
     def shrink_candidates(self, plan):
+        if plan["cls"] == "shared":
+            yield from core.generic_candidates(plan, [["hist"]], [(["seed"], 0)])
+            return
         if plan["cls"] == "factors":
             for s in C.spec_candidates(plan["spec"]):
                 yield dict(plan, spec=s)
@@ -161,9 +175,56 @@ class Spec(core.PropSpec):
         out = core.Outcome()
         if plan["cls"] == "factors":
             self._factors(plan, out)
+        elif plan["cls"] == "shared":
+            self._shared(plan, out)
         else:
             self._schedule(plan, out)
         return out
+
+    def _shared(self, plan, out):
+        """pipelines A = compose[leaf] and B = compose[leaf, other] share the leaf OBJECT; after any history of scale calls on
+        A and B, the pipeline scaled last must behave like a fresh replica of itself scaled only by that last factor"""
+        import numpy as np
+        import kappadata.transforms as kdt
+        from simkit.deep import deep_diff, h
+        from simkit.simproc import SimProcess
+        L = C.leaves()
+        dom = L[plan["leaf"]]["dom"]
+        pT, pR = SimProcess("T", plan["ambA"]), SimProcess("R", plan["ambB"] ^ 0x77777)
+
+        def build(proc):
+            with proc.on_cpu():
+                leaf = L[plan["leaf"]]["make"]()
+                return {"A": kdt.KDComposeTransform([leaf]), "B": kdt.KDComposeTransform([leaf, L[plan["other"]]["make"]()])}
+
+        try:
+            T = build(pT)
+            last = None
+            for which, f in plan["hist"]:
+                with pT.on_cpu():
+                    T[which].scale_strength(f)
+                last = (which, f)
+                out.count("logical:scale_operations")
+            R = build(pR)
+            with pR.on_cpu():
+                if last[1] != 1.0:
+                    R[last[0]].scale_strength(last[1])
+            res = {}
+            for name, obj, proc in (("T", T[last[0]], pT), ("R", R[last[0]], pR)):
+                with proc.on_cpu():
+                    obj.set_rng(np.random.default_rng(plan["seed"]))
+                    res[name] = [(lambda c: (obj(C.clone(C.make_input(dom, k)), c), c))({}) for k in plan["ks"]]
+        except Exception as e:
+            out.violate(f"C15:raises:{type(e).__name__}", plan["leaf"], f"shared leaf {plan['leaf']} history {plan['hist']}: {type(e).__name__}: {e}")
+            return
+        out.ev("shared", plan["hist"], [h(x) for x in res["T"]])
+        d = deep_diff(res["T"], res["R"])
+        if d:
+            out.violate("C15:result-depends-on-earlier-factors" if last[1] != 1.0 else "C15:scale-1-does-not-restore", plan["leaf"],
+                        f"leaf {plan['leaf']} shared by pipelines A and B, history {plan['hist']}: pipeline {last[0]} differs from a fresh replica "
+                        f"scaled only by {last[1]}: {d}")
+        out.tags.append("shared-leaf")
+        out.nontrivial = len({tuple(x) for x in plan["hist"]}) >= 2
 
     # ---------------------------------------------------------------------------------------------------------
     def _factors(self, plan, out):
